@@ -187,7 +187,40 @@ type probeSched struct {
 	epoch map[string]string
 	pings int64
 	bad   bool
+	// membership generation per prober, advanced at every scheduler step at which the set of
+	// peers it holds as alive/suspect differs from the previous step: a peer that died and was
+	// revived between two probes leaves the set sampled at the probe instants unchanged, but the
+	// probe schedule legitimately skipped it while it was dead
+	liveNow map[string]string
+	gen     map[string]int
 }
+
+func (ps *probeSched) step(cx *clusterRun) {
+	if ps.liveNow == nil {
+		ps.liveNow = map[string]string{}
+		ps.gen = map[string]int{}
+	}
+	for _, n := range cx.cl.nodes {
+		if n.m == nil {
+			continue
+		}
+		var live []string
+		n.m.nodeLock.RLock()
+		for name, x := range n.m.nodeMap {
+			if name != n.name && !x.DeadOrLeft() {
+				live = append(live, name)
+			}
+		}
+		n.m.nodeLock.RUnlock()
+		sortStrs(live)
+		l := joinStrs(live)
+		if prev, ok := ps.liveNow[n.name]; !ok || prev != l {
+			ps.liveNow[n.name] = l
+			ps.gen[n.name]++
+		}
+	}
+}
+func (ps *probeSched) finish(cx *clusterRun) {}
 
 func (ps *probeSched) onTap(r *tapRec) {
 	if r.Stream || ps.bad {
@@ -239,7 +272,7 @@ func (ps *probeSched) onTap(r *tapRec) {
 			return
 		}
 		sortStrs(live)
-		ep := joinStrs(live)
+		ep := fmt.Sprintf("%s#%d", joinStrs(live), ps.gen[S.name])
 		if ps.epoch[S.name] != ep {
 			ps.epoch[S.name] = ep
 			ps.hist[S.name] = nil
@@ -289,6 +322,7 @@ func execC03(c *Ctx) {
 	ps := &probeSched{c: c, cx: cx, hist: map[string][]string{}, epoch: map[string]string{}}
 	if p.Cfg.IndirectChecks == 0 {
 		cx.cl.net.tapFn = ps.onTap
+		cx.mons = append(cx.mons, ps)
 	}
 	crashAt := time.Duration(p.param("crash_at", 0))
 	end := crashAt + mon.bound + 2*time.Second
